@@ -100,6 +100,15 @@ Theorem round_trip_bytes_final m b :
   exists f, serialize m b = Ok f /\ parse f = Ok b /\ (forall b', parse f = Ok b' -> serialize m b' = Ok f).
 Proof. apply round_trip_bytes. intros a W B. apply recs_bin_round_trip; assumption. Qed.
 
+(* serialization is injective on the domain: two values with the same image are equal *)
+Theorem serialize_injective m b1 b2 f :
+  wf_bin_bytes b1 -> wf_bin_bytes b2 -> serialize m b1 = Ok f -> serialize m b2 = Ok f -> b1 = b2.
+Proof.
+  intros W1 W2 S1 S2.
+  destruct (round_trip_bytes_final m b1 W1) as (f1 & E1 & P1 & _). destruct (round_trip_bytes_final m b2 W2) as (f2 & E2 & P2 & _).
+  rewrite S1 in E1. rewrite S2 in E2. inversion E1; inversion E2; subst f1 f2. rewrite P1 in P2. inversion P2. reflexivity.
+Qed.
+
 (* ================================================================== the data region: header word + announced record sizes + trailing word *)
 Fixpoint announced_total (specs : list spec) : N :=
   match specs with [] => 0 | sp :: r => snd (compute_flags sp) + announced_total r end.
